@@ -1,0 +1,60 @@
+package currency_test
+
+import (
+	"testing"
+
+	"github.com/invopop/gobl/currency"
+	"github.com/invopop/gobl/num"
+	"github.com/stretchr/testify/assert"
+)
+
+func TestExchangeRateConvertPrecision(t *testing.T) {
+	t.Run("amount with fewer decimals than the destination currency", func(t *testing.T) {
+		er := &currency.ExchangeRate{
+			From:   currency.JPY,
+			To:     currency.EUR,
+			Amount: num.MakeAmount(61, 4),
+		}
+		a := er.Convert(num.MakeAmount(1500, 0))
+		assert.Equal(t, "9.15", a.String())
+		a = er.Convert(num.MakeAmount(100, 0))
+		assert.Equal(t, "0.61", a.String())
+		a = er.Convert(num.MakeAmount(-100, 0))
+		assert.Equal(t, "-0.61", a.String())
+	})
+	t.Run("amount with more decimals than the destination currency", func(t *testing.T) {
+		er := &currency.ExchangeRate{
+			From:   currency.USD,
+			To:     currency.EUR,
+			Amount: num.MakeAmount(49995, 4),
+		}
+		// 0.0049995 is rounded once: not 0.0050 first and then 0.01
+		a := er.Convert(num.MakeAmount(10, 4))
+		assert.Equal(t, "0.00", a.String())
+		a = er.Convert(num.MakeAmount(10000, 4))
+		assert.Equal(t, "5.00", a.String())
+
+		er = &currency.ExchangeRate{
+			From:   currency.EUR,
+			To:     currency.JPY,
+			Amount: num.MakeAmount(16393, 2),
+		}
+		// 329.4993 is rounded once: not 329.50 first and then 330
+		a = er.Convert(num.MakeAmount(201, 2))
+		assert.Equal(t, "329", a.String())
+		a = er.Convert(num.MakeAmount(-201, 2))
+		assert.Equal(t, "-329", a.String())
+		// 245.895
+		a = er.Convert(num.MakeAmount(150, 2))
+		assert.Equal(t, "246", a.String())
+	})
+	t.Run("amount at the precision of the destination currency", func(t *testing.T) {
+		er := &currency.ExchangeRate{
+			From:   currency.USD,
+			To:     currency.EUR,
+			Amount: num.MakeAmount(875967, 6),
+		}
+		a := er.Convert(num.MakeAmount(10000, 2))
+		assert.Equal(t, "87.60", a.String())
+	})
+}
